@@ -34,6 +34,11 @@ pub struct C05Plan {
     /// Restrict split points / fault indices to this list (minimiser); empty = all.
     pub only: Vec<usize>,
     pub io_kinds: Vec<SrcFault>,
+    /// The victim is delivered into the SAME reader that just decoded the last
+    /// picture of the history (so the failing call starts at whatever bit phase
+    /// that picture ended on, behind a committed buffer).
+    #[serde(default)]
+    pub shared_reader: bool,
 }
 
 fn build(opts: u8, prefix: &[PlanPic]) -> Result<Slot, String> {
@@ -47,6 +52,27 @@ fn build(opts: u8, prefix: &[PlanPic]) -> Result<Slot, String> {
         }
     }
     Ok(s)
+}
+
+/// A decoder that has seen the history and whose reader is ready to receive the
+/// victim: a fresh reader, or (shared mode) the reader that decoded the last
+/// history picture.
+fn prep(plan: &C05Plan) -> Result<Slot, String> {
+    if plan.shared_reader && !plan.prefix.is_empty() {
+        let n = plan.prefix.len();
+        let mut s = build(plan.opts, &plan.prefix[..n - 1])?;
+        s.new_reader();
+        s.feed(&plan.prefix[n - 1].bytes);
+        let o = s.decode();
+        if !o.is_ok() {
+            return Err(format!("last history picture not accepted: {}", o.short()));
+        }
+        Ok(s)
+    } else {
+        let mut s = build(plan.opts, &plan.prefix)?;
+        s.new_reader();
+        Ok(s)
+    }
 }
 
 fn decode_fresh(s: &mut Slot, bytes: &[u8]) -> Outcome {
@@ -148,7 +174,8 @@ fn check_continuation(m: &mut Slot, plan: &C05Plan, twin: &Twin, what: &str) -> 
 pub fn exec_c05(plan: &C05Plan, st: &mut Stats) -> Option<Violation> {
     let v = &plan.victim.bytes;
     // ---- twin -------------------------------------------------------------------
-    let mut t = match build(plan.opts, &plan.prefix) {
+    let shared = plan.shared_reader && !plan.prefix.is_empty();
+    let mut t = match prep(plan) {
         Ok(t) => t,
         Err(e) => {
             st.inc("invalid_scenario");
@@ -157,7 +184,6 @@ pub fn exec_c05(plan: &C05Plan, st: &mut Stats) -> Option<Violation> {
         }
     };
     let reads0 = {
-        t.new_reader();
         t.feed(v);
         t.reads()
     };
@@ -187,13 +213,12 @@ pub fn exec_c05(plan: &C05Plan, st: &mut Stats) -> Option<Violation> {
     // ---- 1. hard source faults, chained on one reader ---------------------------
     if plan.do_io {
         for kind in &plan.io_kinds {
-            let mut m = match build(plan.opts, &plan.prefix) {
+            let mut m = match prep(plan) {
                 Ok(m) => m,
                 Err(_) => return None,
             };
             let before_obs = observe(&m, &Outcome::Ok);
             let before = state_digest(&m.state);
-            m.new_reader();
             m.feed(v);
             let mut failures = 0u64;
             loop {
@@ -243,8 +268,7 @@ pub fn exec_c05(plan: &C05Plan, st: &mut Stats) -> Option<Violation> {
 
     // ---- 2. EINTR at every read: must be invisible ---------------------------------
     if plan.do_eintr {
-        let mut m = build(plan.opts, &plan.prefix).ok()?;
-        m.new_reader();
+        let mut m = prep(plan).ok()?;
         m.feed(v);
         let mut n = 1;
         while n <= twin.reads_v * 2 + 2 {
@@ -270,10 +294,9 @@ pub fn exec_c05(plan: &C05Plan, st: &mut Stats) -> Option<Violation> {
             if !wanted(k) {
                 continue;
             }
-            let mut m = build(plan.opts, &plan.prefix).ok()?;
+            let mut m = prep(plan).ok()?;
             let before_obs = observe(&m, &Outcome::Ok);
             let before = state_digest(&m.state);
-            m.new_reader();
             m.feed(&v[..k]);
             let o = m.decode();
             st.inc("evaluations");
@@ -300,8 +323,10 @@ pub fn exec_c05(plan: &C05Plan, st: &mut Stats) -> Option<Violation> {
             if let Some(x) = check_unchanged(&m, (before, &before_obs), &what) {
                 return Some(x);
             }
-            if let Err(e) = reader_where_it_was(&mut m, v) {
-                return viol("reader moved by a failed call", format!("{what}: {e}"));
+            if !shared {
+                if let Err(e) = reader_where_it_was(&mut m, v) {
+                    return viol("reader moved by a failed call", format!("{what}: {e}"));
+                }
             }
             // deliver the rest, retry: as if all data had been there from the start
             m.feed(&v[k..]);
@@ -332,10 +357,9 @@ pub fn exec_c05(plan: &C05Plan, st: &mut Stats) -> Option<Violation> {
                 st.inc("excluded_too_large");
                 continue;
             }
-            let mut m = build(plan.opts, &plan.prefix).ok()?;
+            let mut m = prep(plan).ok()?;
             let before_obs = observe(&m, &Outcome::Ok);
             let before = state_digest(&m.state);
-            m.new_reader();
             m.feed(&p.bytes);
             let o = m.decode();
             st.inc("evaluations");
@@ -356,8 +380,12 @@ pub fn exec_c05(plan: &C05Plan, st: &mut Stats) -> Option<Violation> {
             if let Some(x) = check_unchanged(&m, (before, &before_obs), &what) {
                 return Some(x);
             }
-            if let Err(e) = reader_where_it_was(&mut m, &p.bytes) {
-                return viol("reader moved by a failed call", format!("{what}: {e}"));
+            if !shared {
+                if let Err(e) = reader_where_it_was(&mut m, &p.bytes) {
+                    return viol("reader moved by a failed call", format!("{what}: {e}"));
+                }
+            } else {
+                st.inc("probe.failure_on_a_reused_reader");
             }
             // valid data afterwards: the victim, then the continuation
             let o2 = decode_fresh(&mut m, v);
@@ -525,7 +553,7 @@ pub fn gen_c05(rng: &mut Rng, tier: Tier) -> C05Plan {
     let sorenson = opts & 1 == 1;
     let mut cfg = GenCfg::for_opts(rng, opts);
     let _ = sorenson;
-    let limit = if tier == Tier::Quick { 400 } else { 4096 };
+    let limit = if tier == Tier::Quick { 400 } else { 1200 };
     if cfg.flavour == 3 {
         cfg.density = cfg.density.min(1);
         cfg.mb_weights[0] += 20;
@@ -590,6 +618,7 @@ pub fn gen_c05(rng: &mut Rng, tier: Tier) -> C05Plan {
         do_eintr: true,
         only: vec![],
         io_kinds: vec![*rng.pick(&SrcFault::HARD)],
+        shared_reader: rng.chance(1, 3),
     }
 }
 
@@ -601,7 +630,7 @@ impl Property for C05 {
     fn runs(tier: Tier) -> u64 {
         match tier {
             Tier::Quick => 6_000,
-            Tier::Thorough => 60_000,
+            Tier::Thorough => 40_000,
         }
     }
     fn generate(rng: &mut Rng, tier: Tier) -> C05Plan {
@@ -662,6 +691,6 @@ impl Property for C05 {
         ]
     }
     fn probe_names() -> Vec<&'static str> {
-        vec!["io_error_inside_header", "io_error_inside_mb_header", "io_error_inside_block_data", "split_failed_inside_header", "split_failed_inside_block_data"]
+        vec!["io_error_inside_header", "io_error_inside_mb_header", "io_error_inside_block_data", "split_failed_inside_header", "split_failed_inside_block_data", "failure_on_a_reused_reader"]
     }
 }
